@@ -79,6 +79,11 @@ if ok:
             # rendering with memory addresses removed - "bound to the same objects" across interpreters can only mean equal
             # descriptions, and a typing alias whose member order follows the import order is a different object
             desc = ""
+            # a class or function is named by where it was DEFINED (module and qualified name): a public name that denotes one
+            # function after one import order and another after another order is not "bound to the same object" (round 12,
+            # seeded/C20l: a one-shot specialisation that rebinds track.build_events_from_data only if instrument ran first)
+            if isinstance(obj, (type, types.FunctionType)):
+                desc = str(getattr(obj, "__module__", "")) + "." + str(getattr(obj, "__qualname__", ""))
             if not isinstance(obj, (type, types.FunctionType, types.ModuleType)):
                 try:
                     desc = re.sub(r"0x[0-9a-fA-F]+", "0x", repr(obj))[:400]
